@@ -16,7 +16,8 @@ What is a stand-in: the Textual App/Widget machinery: a screen STACK (push_scree
 UI alphabet (compound actions, JSON-able tuples):
     ("row", i, KEY, *answers)     highlight row i of the list (row 0 is "<-- Back" inside a menu), press KEY
                                   (enter | space | y | n | r)
-    ("key", KEY, *answers)        press KEY on the main screen: a | left | escape | s | q | o | slash
+    ("key", KEY, *answers)        press KEY on the main screen: a | left | escape | s | q | o | slash | question_mark
+                                  (question_mark + ("jump", k): info screen of the highlighted row, `/` inside it)
     answers (at most one per dialog kind; a dialog without an answer is cancelled with Escape):
         ("kd", "y"|"n"|"c"|"o")   key pressed in a KeyDialogScreen (quit / load-anyway / restore-menu / warning)
         ("text", v)               value typed into an InputScreen, then Enter (a rejected value leaves the dialog open:
@@ -258,10 +259,12 @@ class Harness:
             close_all()
         _counter += 1
         self.spec = spec
-        self.dir = os.path.join(impl.wdir(), f"hl{_counter}")
+        # one live session per process in the normal case: the directory is reused, only the files are replaced
+        self.dir = os.path.join(impl.wdir(), f"hl{_counter}" if keep else "hl")
         os.makedirs(self.dir, exist_ok=True)
         _live.append(self)
         self.conf = os.path.join(self.dir, "sdkconfig")
+        self._rm_files()
         if spec.get("sdk") is not None:
             with open(self.conf, "w") as f:
                 f.write(spec["sdk"])
@@ -275,6 +278,7 @@ class Harness:
         self.obs_log: List[dict] = []  # observation after every micro step (only with observe=True)
         self.observe_steps = False
         self.setval_log: List[tuple] = []
+        self.input_log: List[tuple] = []  # (typed value, accepted by the dialog's validator)
         self.empty = False
         self.rejected: Optional[str] = None
         self.app: Any = None
@@ -320,8 +324,18 @@ class Harness:
         for k, v in self.env.items():
             os.environ[k] = v
 
+    def _rm_files(self) -> None:
+        for n in ("sdkconfig", "sdkconfig.old", "expected.out"):
+            try:
+                os.unlink(os.path.join(self.dir, n))
+            except OSError:
+                pass
+
     def close(self) -> None:
-        shutil.rmtree(self.dir, ignore_errors=True)
+        if os.path.basename(self.dir) == "hl":
+            self._rm_files()
+        else:
+            shutil.rmtree(self.dir, ignore_errors=True)
         for k in self.env:
             os.environ.pop(k, None)
         if self in _live:
@@ -494,7 +508,15 @@ class Harness:
             if key == "escape":
                 scr.action_cancel()
             elif key == "enter":
-                scr.on_input_submitted(SimpleNamespace(value=self._values[id(scr)]))
+                v = self._values[id(scr)]
+                scr.on_input_submitted(SimpleNamespace(value=v))
+                if name == "InputScreen":
+                    self.input_log.append((v, not any(x[0] is scr for x in self.stack)))
+        elif name == "InfoScreen":
+            if key == "slash":
+                scr.action_jump_to()
+            elif key in ("escape", "q", "h", "left", "backspace"):
+                scr.action_dismiss_screen()
         elif name == "JumpToScreen":
             hl = self._jump_hl[id(scr)]
             if key == "escape":
@@ -551,6 +573,7 @@ class Harness:
         for m in first:
             step(m)
         budget = 12
+        info_searched = False
         while self.stack and not self.app.exited:
             budget -= 1
             if budget < 0:
@@ -572,6 +595,12 @@ class Harness:
                 if "file" in ans:
                     step(("text", self.resolve_file(ans.pop("file"))))
                     step(("key", "enter"))
+                else:
+                    step(("key", "escape"))
+            elif name == "InfoScreen":
+                if "jump" in ans and not info_searched:
+                    info_searched = True
+                    step(("key", "slash"))
                 else:
                     step(("key", "escape"))
             elif name == "JumpToScreen":
@@ -712,6 +741,7 @@ def replay(spec: Dict[str, Any], history: Any, observe: bool = False, keep: bool
                 target += ":hidden"
         if i == len(history) - 1:
             del h.setval_log[:]
+            del h.input_log[:]
             h.last_target = h.ml._menu_nodes[a[1]] if (a[0] == "row" and a[1] < len(h.ml._menu_nodes)) else None
             h.last_menu_kind = pre_menu
             h.last_target_kind = target
@@ -742,11 +772,11 @@ def fmt_history(h: Any) -> str:
 # --------------------------------------------------------------------------------------------------
 
 
-def enumerate_actions(h: Harness, typed: Dict[str, List[str]], loads: List[str], full: bool, jumps: bool = True) -> List[tuple]:
+def enumerate_actions(h: Harness, typed: Dict[str, List[str]], loads: List[str], full: bool, jumps: bool = True, info: bool = False) -> List[tuple]:
     """All compound actions offered in the current state.
     typed: values typed into the input dialog per option type; loads: file names for the Load dialog;
     full=False leaves out keys whose handler provably takes the same path as another offered key
-    (Enter vs Space on a plain bool, Escape vs Left inside a menu, cancelled dialogs)."""
+    (Enter vs Space on a plain bool, y/n vs Space on a plain bool, Escape vs Left inside a menu, cancelled dialogs)."""
     from esp_kconfiglib.core import BOOL, COMMENT, MENU, TYPE_TO_STR, Choice, Symbol
 
     if h.empty or h.app.exited:
@@ -782,7 +812,12 @@ def enumerate_actions(h: Harness, typed: Dict[str, List[str]], loads: List[str],
         elif isinstance(it, Symbol):
             warn = [("kd", "y")] if it.warning else []
             if it.orig_type == BOOL:
-                keys = ["space", "y", "n"]
+                if full or warn:
+                    keys = ["space", "y", "n"]  # y / n bypass the warning dialog
+                elif it.choice is not None:
+                    keys = ["space", "y"]  # Space selects the member and leaves the choice menu, y only selects
+                else:
+                    keys = ["space"]  # on a plain bool y / n call the same _set_val as Space (or do nothing)
                 if full or (n.is_menuconfig and n.list):
                     keys.insert(0, "enter")
                 for k in keys:
@@ -809,8 +844,13 @@ def enumerate_actions(h: Harness, typed: Dict[str, List[str]], loads: List[str],
         if full:
             out.append(("key", "escape"))
     if jumps:
-        for k in range(len(h.jump_targets())):
+        nt = len(h.jump_targets())
+        for k in range(nt):
             out.append(("key", "slash", ("jump", k)))
+        if info:
+            # `?` (info screen of the highlighted row), `/` inside it, pick match k
+            for k in range(nt):
+                out.append(("key", "question_mark", ("jump", k)))
     for f in loads:
         out.append(("key", "o", ("kd", "o"), ("file", f)))
     if full and loads:
